@@ -271,7 +271,7 @@ where
                         cases: per as u32,
                         failure_persistence: None,
                         max_shrink_iters,
-                        max_shrink_time: 0,
+                        max_shrink_time: 240_000,
                         max_global_rejects: 1 << 30,
                         ..Config::default()
                     };
@@ -313,16 +313,15 @@ where
                                     .with(|b| b.borrow().clone())
                                     .unwrap_or_else(|| Bad::new(reason.to_string())),
                             };
-                            failures.lock().unwrap().push((
-                                shard,
-                                Failure {
-                                    check: name.clone(),
-                                    tape,
-                                    reason: bad.reason,
-                                    signature: bad.signature,
-                                    rendered: bad.rendered,
-                                },
-                            ));
+                            let failure = Failure {
+                                check: name.clone(),
+                                tape,
+                                reason: bad.reason,
+                                signature: bad.signature,
+                                rendered: bad.rendered,
+                            };
+                            EARLY_FAILURES.lock().unwrap().push(failure.clone());
+                            failures.lock().unwrap().push((shard, failure));
                         }
                         Err(TestError::Abort(reason)) => {
                             eprintln!("INFRA: proptest aborted in {name} shard {shard}: {reason}");
@@ -911,6 +910,10 @@ struct InFlight {
 
 static IN_FLIGHT: Mutex<Vec<Option<InFlight>>> = Mutex::new(Vec::new());
 
+/// Failures already shrunk and recorded by some shard: if another case then never returns, the
+/// watchdog still reports these (they are verdicts) instead of discarding them with the run.
+static EARLY_FAILURES: Mutex<Vec<Failure>> = Mutex::new(Vec::new());
+
 fn watchdog_enter(shard: usize, name: &str, tape: &[u8]) {
     let mut g = IN_FLIGHT.lock().unwrap();
     if g.len() <= shard {
@@ -927,8 +930,17 @@ fn watchdog_leave(shard: usize) {
 }
 
 /// Start the monitor thread (once per process).
-pub fn start_watchdog(property: &str, limit: std::time::Duration) {
+pub fn start_watchdog(property: &str, limit: std::time::Duration, seed: u64, tier: Tier) {
     let property = property.to_string();
+    let ctx = Ctx {
+        id: property.clone(),
+        tier,
+        seed,
+        threads: 1,
+        repo_bin: PathBuf::new(),
+        scratch: PathBuf::new(),
+        strict: false,
+    };
     let _ = std::thread::Builder::new().name("watchdog".into()).spawn(move || loop {
         std::thread::sleep(std::time::Duration::from_secs(5));
         let g = IN_FLIGHT.lock().unwrap();
@@ -952,6 +964,20 @@ pub fn start_watchdog(property: &str, limit: std::time::Duration) {
                     slot.name,
                     limit.as_secs()
                 );
+                // violations that were already established are still reported
+                let known = load_known(&property);
+                let mut outcome = Outcome::new();
+                let early = std::mem::take(&mut *EARLY_FAILURES.lock().unwrap());
+                outcome.absorb(&known, early);
+                if !outcome.violations.is_empty() {
+                    for v in &outcome.violations {
+                        let p = write_replay(&ctx, v);
+                        println!("VIOLATION property={} replay={}", property, p.display());
+                        println!("  check={} reason={}", v.check, v.reason.chars().take(600).collect::<String>());
+                    }
+                    println!("{} {} seed={} run cut short by the watchdog after {} violation(s) had been established", property, ctx.tier.name(), seed, outcome.violations.len());
+                    std::process::exit(1);
+                }
                 std::process::exit(2);
             }
         }
